@@ -1,6 +1,7 @@
 (* C20 -- block, length and sample accounting. *)
 From Coq Require Import List ZArith QArith Qround Bool.
 From SV Require Import Base.PySeq Model.Backend Proofs.Backend.
+From SV Require Import Kernels.Gen20 Proofs.K20.
 Import ListNotations.
 
 Theorem c20_spb_exact : forall c, (1 <= nants c)%Z -> (1 <= nchans c)%Z -> (1 <= taps c)%Z -> (1 <= bps c)%Z ->
@@ -62,6 +63,14 @@ Print Assumptions c20_effective_blocks.
 Theorem c20_effective_blocks_error : forall requested input, effective_blocks requested input = None <-> (requested = None /\ input = None).
 Proof. exact effective_blocks_none. Qed.
 Print Assumptions c20_effective_blocks_error.
+
+(* the accounting expressions of the CURRENT source (Kernels/Gen20.v, regenerated on every run) are the model's *)
+Theorem c20_source_kernels : forall c n start spb_ tbin,
+  src_bytes_per_sample (npols c) (nbits c) = bps c /\ src_samples_per_block (block_size c) (nants c) (nchans c) (bps c) = spb c /\
+  src_total_obs_num_samples n (spb c) (nb c) = total_samples c n /\ src_pktstop start n (spb c) = pktstop c start n /\
+  (src_record_obs_length n (src_time_per_block spb_ tbin) == inject_Z (n * spb_) * tbin)%Q.
+Proof. exact k20_all. Qed.
+Print Assumptions c20_source_kernels.
 
 Example c20_example :
   let c := {| nants := 1; npols := 2; nbits := 8; nchans := 64; taps := 8; nb := 1024; block_size := 20480; blocks_per_file := 2 |}%Z in
